@@ -46,7 +46,7 @@ MESH_RANGES = [(r"mesh.*\]\[0\]$", -1.0, 1.0)]
 def surf_of(cfg, **kw):
     c = {k: v for k, v in cfg.items() if k in ("nx", "ny", "symmetry", "side", "model", "groundplane", "S_ref_type",
                                                "with_viscous", "with_wave", "struct_weight_relief",
-                                               "distributed_fuel_weight", "n_point_masses", "fem_origin", "yshift", "ref_axis_pos")}
+                                               "distributed_fuel_weight", "n_point_masses", "fem_origin", "yshift", "ref_axis_pos", "flip")}
     if not c.get("symmetry", True):
         c.pop("side", None)
         if c.get("ny", 3) % 2 == 0:
@@ -322,12 +322,12 @@ _surfs("EvalVelMtx", "aerodynamics.eval_mtx.EvalVelMtx", cfgs=MULTI_GP, cost=15,
 from ._generic import implicit_contract
 
 
-@job("deriv.SolveMatrix", ("C01", "C02", "C03", "C05", "C07"), cfgs=MULTI[:2] + MULTI[3:4])
+@job("deriv.SolveMatrix", ("C01", "C02", "C03", "C05", "C07"), cfgs=MULTI[:2] + MULTI[3:4], ranges=[(r"^solve\d+_x", 1e-12, 1.0, "log")])
 def _solve_matrix(env, **cfg):
     implicit_contract(env, lambda: cls("aerodynamics.solve_matrix.SolveMatrix")(surfaces=two_surfaces(cfg)))
 
 
-@job("deriv.FEM", ("C01", "C02", "C03", "C10"), cfgs=product(NY[:3], SYM_Q, TUBE), cost=10)
+@job("deriv.FEM", ("C01", "C02", "C03", "C10"), cfgs=product(NY[:3], SYM_Q, TUBE), cost=10, ranges=[(r"^solve\d+_x", 1e-12, 1.0, "log")])
 def _fem(env, **cfg):
     def symmetric_blocks(env, h, ins):
         # precondition of FEM (postcondition of LocalStiffTransformed, proved by the kchain.* jobs): every 12x12
@@ -374,7 +374,7 @@ def _unification(env, nys, shift, tc):
 
 
 @job("deriv.GeomMultiJoin", ("C01", "C02", "C03"),
-     cfgs=[dict(nys=(3, 3), dims=((1, 1, 1),)), dict(nys=(2, 3, 2), dims=((1, 0, 1), (1, 0, 1))), dict(nys=(3, 2), dims=()),
+     cfgs=[dict(nys=(3, 3), dims=((1, 1, 1),)), dict(nys=(2, 3, 2), dims=((1, 0, 1), (0, 1, 1))), dict(nys=(3, 2), dims=()),
            dict(nys=(3, 3, 3), dims=((1, 1, 1), (1, 1, 1), (1, 1, 1)), _tier=T)])
 def _join(env, nys, dims):
     env.add_ranges(*MESH_RANGES)
